@@ -549,6 +549,21 @@ Section Prims.
                end
       | _ => stuck f s
       end
+    (* ---- the fields of a Drain object that its DropGuard reads ---- *)
+    else if is "field:remaining_" || is "field:remaining_pos_" || is "field:vec_" then
+      match args with
+      | [it] => match ctor_is "Iter" it with
+                | Some [VObj i] =>
+                    lift_k (drain_of i) (fun d => if is "field:remaining_" then VInt (d_rem d)
+                                                  else if is "field:remaining_pos_" then eptr_val (d_rpos d)
+                                                  else VObj (d_vec d)) s k
+                | _ => stuck f s
+                end
+      | _ => stuck f s
+      end
+    else if is ".as_mut" then
+      (* NonNull<MiniVec<T>>::as_mut: the vector the Drain borrows *)
+      match args with [VObj v] => k (VObj v) s | _ => stuck f s end
     (* core::mem::drop of an element handed out by an iterator; mem::forget of a guard *)
     else if is "drop" then
       match args with [VInt e] => lift_k (drop_elem cfg e) vunit s k | _ => stuck f s end
